@@ -1,0 +1,24 @@
+//go:build verif
+
+package fd
+
+import (
+	"sort"
+	"strings"
+
+	"github.com/ozontech/file.d/pipeline"
+)
+
+// VerifActionTypes lists the types of every action plugin registered in the default registry
+// (sorted). Used by the C13 harness to notice a plugin that has no configuration grammar.
+func VerifActionTypes() []string {
+	prefix := string(pipeline.PluginKindAction) + "_"
+	out := make([]string, 0, len(DefaultPluginRegistry.plugins))
+	for id := range DefaultPluginRegistry.plugins {
+		if strings.HasPrefix(id, prefix) {
+			out = append(out, strings.TrimPrefix(id, prefix))
+		}
+	}
+	sort.Strings(out)
+	return out
+}
